@@ -76,3 +76,47 @@ Proof.
   destruct (reachable_tinv L HL W kinds os HW Hnf Htok) as [[_ T2] _].
   rewrite Forall_forall in T2. now apply T2.
 Qed.
+
+(* ---------- C02, second sentence: connections beyond the limit stay in the backlog ---------- *)
+(* when every worker is at its limit no worker is flagged ... *)
+Lemma saturated_unavailable (L : Z) W kinds os :
+  (1 <= L)%Z -> 1 <= W <= 512 ->
+  forallb nf_op os = true -> forallb (tok_ok (length kinds)) os = true ->
+  let st := run L (init W kinds) os in
+  (forall g w, nth_error (ws st) g = Some w ->
+     (Z.of_nat (length (w_queue w)) + Z.of_nat (length (w_picked w)) = L)%Z) ->
+  available (av st) = false.
+Proof.
+  intros HL HW Hnf Htok st Hsat.
+  pose proof (reachable_inv L HL W kinds os HW Hnf Htok) as HI. fold st in HI.
+  destruct (available (av st)) eqn:Ha; [exfalso|reflexivity].
+  pose proof HI as (_ & _ & _ & _ & Hwf & Hbits & _).
+  destruct (proj1 (available_getb (av st) Hwf) Ha) as (i & Hi & Hb).
+  pose proof (Hbits i Hi Hb) as Hlt.
+  destruct (nth_error (ws st) (N.to_nat i)) as [w|] eqn:Hw; [|apply nth_error_None in Hw; lia].
+  assert (Hb' : getb (av st) (N.of_nat (N.to_nat i)) = true) by (rewrite N2Nat.id; exact Hb).
+  pose proof (Inv_flag_capacity L _ _ _ _ HI Hw Hb') as Hcap.
+  specialize (Hsat _ _ Hw). lia.
+Qed.
+
+(* ... and with no worker flagged an accept call (hence a whole poll turn's listener part) changes nothing: the connection
+   stays in the kernel backlog *)
+Lemma unavailable_accept_noop (L : Z) st tok ys :
+  err st = None -> available (av st) = false -> accept L st tok ys = (st, ys).
+Proof.
+  intros He Ha. unfold accept. destruct (paused st); [reflexivity|]. unfold accept_fuel.
+  destruct (nth_error (lsts st) tok); cbn [accept_loop]; now rewrite He, Ha.
+Qed.
+
+Lemma saturated_accept_noop (L : Z) W kinds os tok ys :
+  (1 <= L)%Z -> 1 <= W <= 512 ->
+  forallb nf_op os = true -> forallb (tok_ok (length kinds)) os = true ->
+  let st := run L (init W kinds) os in
+  (forall g w, nth_error (ws st) g = Some w ->
+     (Z.of_nat (length (w_queue w)) + Z.of_nat (length (w_picked w)) = L)%Z) ->
+  accept L st tok ys = (st, ys).
+Proof.
+  intros HL HW Hnf Htok st Hsat. apply unavailable_accept_noop.
+  - exact (proj1 (reachable_inv L HL W kinds os HW Hnf Htok)).
+  - now apply saturated_unavailable.
+Qed.
